@@ -455,6 +455,14 @@ func (e *Engine) model() (map[string]string, []string) {
 		m[v.Name] = decodeModelValue(vals[v.SMT], v.Kind)
 		order = append(order, v.Name)
 	}
+	if vfs != nil && len(vfs.order) > 0 {
+		// order in which the "processes" performed their hooked file-system operations
+		parts := make([]string, len(vfs.order))
+		for i, t := range vfs.order {
+			parts[i] = strconv.Itoa(t)
+		}
+		m["__ops"] = strings.Join(parts, ",")
+	}
 	return m, order
 }
 
@@ -633,6 +641,9 @@ func (e *Engine) recordViolation(label, kind, detail string, m map[string]string
 	if v, ok := e.vioIndex[key]; ok {
 		v.Count++
 		return
+	}
+	if vfs != nil && len(vfs.ops) > 0 {
+		detail += " fs-trace: " + strings.Join(vfs.ops, " ")
 	}
 	v := &Violation{Harness: e.Harness, Label: label, Kind: kind, Detail: detail, Model: m, Order: order, Count: 1}
 	e.vioIndex[key] = v
